@@ -1,10 +1,11 @@
 import AdfObdd.NgHalt
-/-! prototype 17: the closure facts `cl_flip` / `cl_direct` for the concrete (bucketed,
-    repaired) `conclusions` on fixed-length vectors -/
+/-! the closure facts `cl_flip` / `cl_direct` for the concrete (bucketed, repaired: `n + 1`
+    buckets indexed by size) `conclusions` on fixed-length vectors -/
 
-/-- buckets by size, as `add_ng` builds them (membership view) -/
+/-- buckets by size, as the repaired `add_ng` builds them (membership view): `n + 1` buckets,
+bucket `k` holds the nogoods of size `k` (the empty nogood sits in bucket 0) -/
 def bucketsOf (n : Nat) (flat : List PA) : List (List PA) :=
-  (List.range n).map (fun k => flat.filter (fun g => size g == k + 1))
+  (List.range (n + 1)).map (fun k => flat.filter (fun g => size g == k))
 
 theorem mem_bucketsOf {n : Nat} {flat : List PA} {b : List PA} (h : b ∈ bucketsOf n flat) :
     ∀ g ∈ b, g ∈ flat := by
@@ -247,12 +248,12 @@ theorem FlipPre.relevant_mem (h : FlipPre n flat H v b) {bk : List PA}
   unfold relevant bucketsOf at hb
   rw [← List.map_take, List.mem_map] at hb
   obtain ⟨k, hk, rfl⟩ := hb
-  have hk' : k < size H + 1 := by
+  have hk' : k < size H + 2 := by
     have := List.mem_take_iff_getElem.mp hk
     obtain ⟨i, hi, rfl⟩ := this
     simp at hi ⊢; omega
   have ⟨hgf, hsz⟩ := List.mem_filter.mp hg
-  have : size g = k + 1 := by simpa using hsz
+  have : size g = k := by simpa using hsz
   exact ⟨hgf, by omega⟩
 
 theorem FlipPre.dich (h : FlipPre n flat H v b) {g : PA} (hg : g ∈ flat) (hsz : size g ≤ size H + 1) :
@@ -368,43 +369,52 @@ theorem fold_flip (hvH : v < H.length) (hn : pget H v = none) : ∀ (bs : List (
       · left; exact h
       · left; exact h1
 
-/-- `cl_flip` at the level of one `conclusions` call on the bucketed store -/
-theorem conclusions_flip (h : FlipPre n flat H v b) :
-    conclusions (bucketsOf n flat) H = some (setAt H v (!b)) := by
+/-- `cl_flip` at the level of one `conclusions` call, for any bucket structure `bs` in which the
+buckets looked at contain only nogoods of `flat` of size at most `size H + 1` and one of them
+contains the fresh nogood -/
+theorem conclusions_flip_gen {bs : List (List PA)} (h : FlipPre n flat H v b)
+    (hmem : ∀ bk ∈ relevant bs H, ∀ g ∈ bk, g ∈ flat ∧ size g ≤ size H + 1)
+    (hhas : ∃ bk ∈ relevant bs H, setAt H v b ∈ bk) :
+    conclusions bs H = some (setAt H v (!b)) := by
   have hvH : v < H.length := by rw [h.hlen]; exact h.hv
-  have hd : ∀ bk ∈ relevant (bucketsOf n flat) H, ∀ g ∈ bk,
+  have hd : ∀ bk ∈ relevant bs H, ∀ g ∈ bk,
       conclude g H = none ∨ conclude g H = some (v, !b) := by
     intro bk hb g hg
-    have ⟨hgf, hsz⟩ := h.relevant_mem hb hg
+    have ⟨hgf, hsz⟩ := hmem bk hb g hg
     exact (h.dich hgf hsz).1
   -- the bucket of the fresh nogood is looked at and concludes something
-  have hbucket : flat.filter (fun g => size g == size H + 1) ∈ relevant (bucketsOf n flat) H := by
-    unfold relevant bucketsOf
-    rw [← List.map_take, List.mem_map]
-    refine ⟨size H, ?_, rfl⟩
-    rw [List.mem_take_iff_getElem]
-    have hsz := h.sizeH
-    refine ⟨size H, by simp; omega, by simp⟩
-  have hCin : setAt H v b ∈ flat.filter (fun g => size g == size H + 1) := by
-    rw [List.mem_filter]; exact ⟨h.cmem, by simp [h.sizeC]⟩
-  have hnonempty : (flat.filter (fun g => size g == size H + 1)).filterMap (fun g => conclude g H) ≠ [] := by
+  obtain ⟨bkC, hbucket, hCin⟩ := hhas
+  have hnonempty : bkC.filterMap (fun g => conclude g H) ≠ [] := by
     intro he
-    have : (v, !b) ∈ (flat.filter (fun g => size g == size H + 1)).filterMap (fun g => conclude g H) := by
+    have : (v, !b) ∈ bkC.filterMap (fun g => conclude g H) := by
       rw [List.mem_filterMap]; exact ⟨_, hCin, conclude_flip H v b hvH h.hn⟩
     rw [he] at this; cases this
   unfold conclusions
-  rcases fold_flip hvH h.hn (relevant (bucketsOf n flat) H) H hd (Or.inl rfl) with hf | ⟨_, hall⟩
+  rcases fold_flip hvH h.hn (relevant bs H) H hd (Or.inl rfl) with hf | ⟨_, hall⟩
   · rw [hf]
     simp only
-    have hany : (relevant (bucketsOf n flat) H).any
+    have hany : (relevant bs H).any
         (fun bk => bk.any (fun e => violating e (setAt H v (!b)) || violating e H)) = false := by
       rw [List.any_eq_false]; intro bk hb
       rw [Bool.not_eq_true, List.any_eq_false]; intro g hg
-      have ⟨hgf, hsz⟩ := h.relevant_mem hb hg
+      have ⟨hgf, hsz⟩ := hmem bk hb g hg
       have ⟨_, h1, h2⟩ := h.dich hgf hsz
       simp [h1, h2]
     rw [if_neg (by simp [hany])]
   · exact absurd (hall _ hbucket) hnonempty
+
+/-- `cl_flip` at the level of one `conclusions` call on the store re-bucketed from a flat list -/
+theorem conclusions_flip (h : FlipPre n flat H v b) :
+    conclusions (bucketsOf n flat) H = some (setAt H v (!b)) := by
+  apply conclusions_flip_gen h (fun bk hb g hg => h.relevant_mem hb hg)
+  refine ⟨flat.filter (fun g => size g == size H + 1), ?_, ?_⟩
+  · unfold relevant bucketsOf
+    rw [← List.map_take, List.mem_map]
+    refine ⟨size H + 1, ?_, rfl⟩
+    rw [List.mem_take_iff_getElem]
+    have hsz := h.sizeH
+    refine ⟨size H + 1, by simp; omega, by simp⟩
+  · rw [List.mem_filter]; exact ⟨h.cmem, by simp [h.sizeC]⟩
 #print axioms conclusions_flip
 end flip2
 
@@ -440,48 +450,51 @@ theorem pget_updateVec (val v : PA) (i : Nat) (hi : i < v.length) :
 theorem updateVec_length (val v : PA) : (updateVec val v).1.length = v.length := by
   simp [updateVec]
 
-/-- `cl_direct` for the concrete closure: a stored nogood (of the right bucket) contained in
-the interpretation is reported -/
-theorem closure_direct (n : Nat) (flat : List PA) (A g : PA) (hg : g ∈ flat) (hl : g.length = A.length)
-    (hs : PSub g A) (hsz : 1 ≤ size g) (hn : size A ≤ n) :
-    conclusionClosure (bucketsOf n flat) A = Closure.inconsistent := by
+/-- one `conclusions` call: a stored nogood contained in the interpretation is reported (the
+empty nogood included: it sits in bucket 0, which is always looked at) -/
+theorem conclusions_direct (n : Nat) (flat : List PA) (A g : PA) (hg : g ∈ flat) (hl : g.length = A.length)
+    (hs : PSub g A) (hn : size A ≤ n) :
+    conclusions (bucketsOf n flat) A = none := by
   have hsize := size_mono g A hl hs
   have hviol : violating g A = true := (violating_iff g A).mpr hs
-  have hbucket : flat.filter (fun x => size x == (size g - 1) + 1) ∈ relevant (bucketsOf n flat) A := by
+  have hbucket : flat.filter (fun x => size x == size g) ∈ relevant (bucketsOf n flat) A := by
     unfold relevant bucketsOf
     rw [← List.map_take, List.mem_map]
-    refine ⟨size g - 1, ?_, rfl⟩
+    refine ⟨size g, ?_, rfl⟩
     rw [List.mem_take_iff_getElem]
-    refine ⟨size g - 1, by simp; omega, by simp⟩
-  have hgin : g ∈ flat.filter (fun x => size x == (size g - 1) + 1) := by
-    rw [List.mem_filter]; refine ⟨hg, ?_⟩
-    have : size g - 1 + 1 = size g := by omega
-    simp [this]
-  have hnone : conclusions (bucketsOf n flat) A = none := by
-    unfold conclusions
-    cases hf : (relevant (bucketsOf n flat) A).foldl (bucketStep A) (some A) with
-    | none => rfl
-    | some result =>
-      simp only
-      rw [if_pos]
-      rw [List.any_eq_true]
-      refine ⟨_, hbucket, ?_⟩
-      rw [List.any_eq_true]
-      exact ⟨g, hgin, by simp [hviol]⟩
+    refine ⟨size g, by simp; omega, by simp⟩
+  have hgin : g ∈ flat.filter (fun x => size x == size g) := by
+    rw [List.mem_filter]; exact ⟨hg, by simp⟩
+  unfold conclusions
+  cases hf : (relevant (bucketsOf n flat) A).foldl (bucketStep A) (some A) with
+  | none => rfl
+  | some result =>
+    simp only
+    rw [if_pos]
+    rw [List.any_eq_true]
+    refine ⟨_, hbucket, ?_⟩
+    rw [List.any_eq_true]
+    exact ⟨g, hgin, by simp [hviol]⟩
+
+/-- `cl_direct` for the concrete closure: a stored nogood contained in the interpretation is
+reported (no non-emptiness side condition after the D10 repair) -/
+theorem closure_direct (n : Nat) (flat : List PA) (A g : PA) (hg : g ∈ flat) (hl : g.length = A.length)
+    (hs : PSub g A) (hn : size A ≤ n) :
+    conclusionClosure (bucketsOf n flat) A = Closure.inconsistent := by
+  have hnone : conclusions (bucketsOf n flat) A = none := conclusions_direct n flat A g hg hl hs hn
   unfold conclusionClosure
   rw [hnone]
 #print axioms closure_direct
 
-theorem conclusions_allclosed (n : Nat) (flat : List PA) (A : PA) (h : ∀ g ∈ flat, Closed g A) :
-    conclusions (bucketsOf n flat) A = some A := by
-  have hmem : ∀ bk ∈ relevant (bucketsOf n flat) A, ∀ g ∈ bk, g ∈ flat := by
-    intro bk hb g hg
-    exact mem_bucketsOf (List.mem_of_mem_take hb) g hg
-  have hstep : ∀ bk ∈ relevant (bucketsOf n flat) A, bucketStep A (some A) bk = some A := by
+/-- nothing to conclude and nothing violated when every nogood that is looked at has a literal
+complemented in the interpretation -/
+theorem conclusions_allclosed_gen (bs : List (List PA)) (A : PA)
+    (h : ∀ bk ∈ relevant bs A, ∀ g ∈ bk, Closed g A) : conclusions bs A = some A := by
+  have hstep : ∀ bk ∈ relevant bs A, bucketStep A (some A) bk = some A := by
     intro bk hb
     have : bk.filterMap (fun g => conclude g A) = [] := by
       rw [List.filterMap_eq_nil_iff]
-      intro g hg; exact conclude_closed (h g (hmem bk hb g hg))
+      intro g hg; exact conclude_closed (h bk hb g hg)
     unfold bucketStep; simp [this]
   have hfold : ∀ (bs : List (List PA)), (∀ bk ∈ bs, bucketStep A (some A) bk = some A) →
       bs.foldl (bucketStep A) (some A) = some A := by
@@ -499,8 +512,12 @@ theorem conclusions_allclosed (n : Nat) (flat : List PA) (A : PA) (h : ∀ g ∈
   rw [if_neg]
   rw [Bool.not_eq_true, List.any_eq_false]; intro bk hb
   rw [Bool.not_eq_true, List.any_eq_false]; intro g hg
-  have := violating_closed (h g (hmem bk hb g hg)) (PSub.refl A)
+  have := violating_closed (h bk hb g hg) (PSub.refl A)
   simp [this]
+
+theorem conclusions_allclosed (n : Nat) (flat : List PA) (A : PA) (h : ∀ g ∈ flat, Closed g A) :
+    conclusions (bucketsOf n flat) A = some A :=
+  conclusions_allclosed_gen _ A (fun bk hb g hg => h g (mem_bucketsOf (List.mem_of_mem_take hb) g hg))
 
 theorem list_ext_pget {l l' : PA} (hl : l.length = l'.length) (h : ∀ i, i < l.length → pget l i = pget l' i) :
     l = l' := by
@@ -524,9 +541,13 @@ theorem updateVec_self_of_sub {R A : PA} (hl : R.length = A.length) (hs : PSub A
     | none => rfl
     | some b => have := hs i b ha; rw [hr] at this; cases this
 
-/-- `cl_flip` for the concrete closure -/
-theorem closure_flip {n : Nat} {flat : List PA} {H : PA} {v : Nat} {b : Bool} (h : FlipPre n flat H v b) :
-    conclusionClosure (bucketsOf n flat) H = Closure.update (setAt H v (!b)) := by
+/-- `cl_flip` for the concrete closure on any bucket structure: all stored nogoods belong to
+`flat`, the buckets looked at hold sizes `≤ size H + 1`, one of them holds the fresh nogood -/
+theorem closure_flip_gen {n : Nat} {flat : List PA} {H : PA} {v : Nat} {b : Bool} {bs : List (List PA)}
+    (h : FlipPre n flat H v b) (hall : ∀ bk ∈ bs, ∀ g ∈ bk, g ∈ flat)
+    (hsz : ∀ bk ∈ relevant bs H, ∀ g ∈ bk, size g ≤ size H + 1)
+    (hhas : ∃ bk ∈ relevant bs H, setAt H v b ∈ bk) :
+    conclusionClosure bs H = Closure.update (setAt H v (!b)) := by
   have hvH : v < H.length := by rw [h.hlen]; exact h.hv
   have hRlen : (setAt H v (!b)).length = H.length := setAt_length H v (!b) hvH
   have hsub : PSub H (setAt H v (!b)) := psub_setAt _ h.hn
@@ -543,7 +564,8 @@ theorem closure_flip {n : Nat} {flat : List PA} {H : PA} {v : Nat} {b : Bool} (h
     rcases h.cls g hg with hc | hs
     · exact hc.mono hsub
     · exact ⟨v, b, hs v b (by rw [pget_setAt]; simp), by rw [pget_setAt]; simp⟩
-  have h2 := conclusions_allclosed n flat _ hclosed
+  have h2 := conclusions_allclosed_gen bs (setAt H v (!b))
+    (fun bk hb g hg => hclosed g (hall bk (relevant_sub hb) g hg))
   have hu3 : (updateVec (setAt H v (!b)) (setAt H v (!b))).1 = setAt H v (!b) :=
     updateVec_self_of_sub rfl (PSub.refl _)
   have hu4 : (updateVec (setAt H v (!b)) (setAt H v (!b))).2 = false := by
@@ -553,10 +575,24 @@ theorem closure_flip {n : Nat} {flat : List PA} {H : PA} {v : Nat} {b : Bool} (h
     intro i _
     cases pget (setAt H v (!b)) i <;> simp
   unfold conclusionClosure
-  rw [conclusions_flip h]
+  rw [conclusions_flip_gen h (fun bk hb g hg => ⟨hall bk (relevant_sub hb) g hg, hsz bk hb g hg⟩) hhas]
   simp only [hu1, hu2]
   unfold closureLoop
   rw [h2]
   simp only [hu3, hu4]
   rfl
+
+/-- `cl_flip` for the concrete closure on the store re-bucketed from a flat list -/
+theorem closure_flip {n : Nat} {flat : List PA} {H : PA} {v : Nat} {b : Bool} (h : FlipPre n flat H v b) :
+    conclusionClosure (bucketsOf n flat) H = Closure.update (setAt H v (!b)) := by
+  apply closure_flip_gen h (fun bk hb g hg => mem_bucketsOf hb g hg)
+    (fun bk hb g hg => (h.relevant_mem hb hg).2)
+  refine ⟨flat.filter (fun g => size g == size H + 1), ?_, ?_⟩
+  · unfold relevant bucketsOf
+    rw [← List.map_take, List.mem_map]
+    refine ⟨size H + 1, ?_, rfl⟩
+    rw [List.mem_take_iff_getElem]
+    have hsz := h.sizeH
+    refine ⟨size H + 1, by simp; omega, by simp⟩
+  · rw [List.mem_filter]; exact ⟨h.cmem, by simp [h.sizeC]⟩
 #print axioms closure_flip
